@@ -123,9 +123,20 @@ def op_line(op: list) -> str:
         return "|".join([k, cps(op[1]), cps_opt(op[2]), cps_opt(op[3])])
     if k in ("select-any", "destroy"):
         return k
+    if k == "probe":
+        return "|".join([k, "1" if op[1] else "0", cps_opt(op[2])])
     if k == "raw":  # malformed line, passed through
         return op[1]
     raise ValueError(f"unknown op {op!r}")
+
+
+class _Version:
+    """what `fetch_server_version` returns, as far as auto_update_env reads it"""
+
+    def __init__(self, requires_auth: bool, min_llamactl_version: str | None) -> None:
+        self.requires_auth = requires_auth
+        self.min_llamactl_version = min_llamactl_version
+        self.capabilities = ["code_push"]
 
 
 class RealConfig:
@@ -225,6 +236,16 @@ class RealConfig:
                 return "ok"
             if k == "env-del":
                 return "true" if self.svc.delete_environment(op[1]) else "false"
+            if k == "probe":
+                # `env switch` / the capability probes: auto_update_env(current environment); the server's answer is scripted
+                AS = I["AuthService"]
+                orig = AS.fetch_server_version
+                AS.fetch_server_version = lambda _self: _Version(op[1], op[2])
+                try:
+                    self.svc.auto_update_env(self.svc.get_current_environment())
+                finally:
+                    AS.fetch_server_version = orig
+                return "ok"
             auth_svc = self.svc.current_auth_service()
             if k == "create-token":
                 a = auth_svc.create_profile_from_token(op[1], op[2])
